@@ -2,7 +2,7 @@
 import itertools
 from .common import *
 from . import pep440_ref as ref
-from .c09 import spell, rand_fields
+from .c09 import spell, rand_fields, perturb
 
 PID = "C11"
 TARGETS = ["Props/C11.vo"]
@@ -116,10 +116,8 @@ def run_check(tier, seed):
     for _ in range(n):
         a = rand_fields(rng, big=False)
         b = rand_fields(rng, big=False)
-        if rng.random() < 0.5:     # near neighbours: copy a and perturb one field
-            b = dict(a)
-            k = rng.choice(["epoch", "release", "pre", "post", "dev", "local"])
-            b[k] = rand_fields(rng, big=False)[k]
+        if rng.random() < 0.6:     # near neighbours: copy a and perturb one field / one release position
+            b = perturb(rng, a)
         cases.append(f"PEC {hx(spell(rng, a))} {hx(spell(rng, b))}")
     go("random_pairs_and_one_field_perturbations", cases)
 
